@@ -605,3 +605,6 @@ Section Combined.
     intros ->. reflexivity.
   Qed.
 End Combined.
+
+(* the name DESIGN.md uses *)
+Definition fork_version_refuted := fork_version_orig_refuted.
